@@ -57,6 +57,129 @@ def run(P, rep, tier):
     part('R19.2', 'preprocess.c:subst', lambda: r_subst(P, rep, protect))
     part('R19.2', 'preprocess.c:subst', lambda: r_subst_repeat(P, rep))
     part('R19.7', 'tokenize.c:tokenize_file', lambda: r_readback(P, rep))
+    part('R19.8', 'main.c:print_tokens', lambda: r_lines(P, rep))
+
+
+# ------------------------------------------------------------------------ lines ---
+def r_lines(P, rep):
+    """line structure of the -E text: no directive reaches print_tokens (preprocess2 consumes them), so every token it is
+    given is TEXT.  Printed, passed through the text phases of tokenize_file() and tokenised again, the same spellings must
+    come back, and none of them may come back as the beginning of a directive."""
+    from ..lib_c19line import Lines, introducers
+    rep.rule('R19.8', 'the lines of the -E text read back as the text they were: print_tokens interpreted on concrete token lists (kind, spelling and the two separator flags given; origin, hide set, file unconstrained), its output passed through the text phases of tokenize_file() and through tokenize(): (a) a token spelled like the directive introducer (what the is_hash() predicate of preprocess2 compares with; such a token can only come out of macro replacement - directives are consumed) never comes back as the first token of a line, at any position (first token of the output, first token of a later line, indented, inside a line); (b) the spellings come back unchanged when a lone backslash is the last token of a line or of the output (it must not splice the next line); (c) every other one-token spelling that is at_bol comes back as the first token of its own line and no other token does', floor=10)
+    rep.assumptions += ['R19.8 is decided on concrete lists of up to five tokens, one per position class; the -E text is read back by chibicc itself (a # after blanks at the beginning of a line is a directive for it)']
+    u = P.unit(MU)
+    fn = 'print_tokens'
+    where = '%s:%d' % (MU, u.fn(fn).line)
+    L = Lines(P)
+    intro = introducers(P)
+    show_ = lambda b: b.decode('utf-8', 'replace')
+
+    AC = Agg(rep)
+
+    def run_case(rule_key, specs, check, msg):
+        """check(back) -> None | text of what is wrong"""
+        key = '%s:%s:%s' % (MU, fn, rule_key)
+        try:
+            outs = L.printed(specs)
+            if not outs:
+                rep.undecided('R19.8', key, 'print_tokens has no returning path on the concrete list %s' % ' '.join(show_(s[0]) for s in specs), where=where)
+                return
+            bad = None
+            for text, trail in outs:
+                if text is None:
+                    rep.undecided('R19.8', key, 'an output call of print_tokens is not understood', where=where)
+                    return
+                back = L.read_back(text)
+                w = 'the tokenizer rejects it (%s)' % back[1] if (back and back[0] == 'error') else check(back)
+                if w:
+                    bad = (text, w, trail)
+                    break
+        except (AnalysisBroken, Infeasible) as e:
+            rep.undecided('R19.8', key, 'the list %s cannot be followed through print_tokens / tokenize_file / tokenize: %s' % (' '.join(show_(s[0]) for s in specs), e), where=where)
+            return
+        AC.ob('R19.8', key, bad is None, bad and (msg % {'text': repr(show_(bad[0])), 'why': bad[1]}), where,
+              {'tokens (spelling, at_bol, has_space)': [(show_(s[0]), s[1], s[2]) for s in specs], 'paths': len(outs), 'path': bad[2][-6:] if bad else None})
+
+    def spelled(specs):
+        return [s[0] for s in specs]
+
+    for h in intro:
+        hn = 'hash' if h == b'#' else ''.join(c if c.isalnum() else '%02x' % ord(c) for c in show_(h))
+        body = [(b'define', 0, 1), (b'X', 0, 1), (b'1', 0, 1)]
+        cases = [('first-token-of-the-output', [(h, 1, 0)] + body + [(b'int', 1, 0), (b'X', 0, 1), (b';', 0, 0)]),
+                 ('first-token-of-a-later-line', [(b';', 1, 0), (h, 1, 0)] + body),
+                 ('first-token-of-a-later-line', [(b';', 1, 0), (h, 1, 1)] + body),        # (indented)
+                 ('after-white-space-inside-a-line', [(b';', 1, 0), (h, 0, 1)] + body),
+                 ('directly-after-a-token-inside-a-line', [(b';', 1, 0), (h, 0, 0)] + body)]
+        for name, specs in cases:
+            def check(back, specs=specs, h=h):
+                if [b[0] for b in back] != spelled(specs):
+                    return 'it reads back as the tokens %s' % ' '.join(show_(b[0]) for b in back)
+                if any(sp == h and ab for sp, ab in back):
+                    return '`%s` is the first token of its line again: the line is a directive now' % show_(h)
+                return None
+            run_case('text-%s-does-not-become-a-directive:%s' % (hn, name), specs, check,
+                     'a `' + show_(h) + '` that came out of macro replacement (`#define H #` / `H define X 1`: text, not a directive - the compiler proper sees the tokens `# define X 1`) is written as %(text)s; read again, %(why)s (`int X;` after it becomes `int 1;`): the -E output is another program')
+    bs = b'\\'
+    try:
+        L.kind_of(bs)
+        has_bs = True
+    except (AnalysisBroken, Infeasible):
+        has_bs = False      # the tokenizer has no backslash token: nothing of the kind reaches the printer
+    if has_bs:
+        for name, specs in (('last-token-of-a-line', [(b'a', 1, 0), (bs, 0, 1), (b'b', 1, 0), (b';', 0, 0)]),
+                            ('last-token-of-a-line', [(b'a', 1, 0), (b';', 0, 0), (bs, 0, 1)]),      # (the last line)
+                            ('inside-a-line', [(b'a', 1, 0), (bs, 0, 1), (b'b', 0, 1)])):
+            def check(back, specs=specs):
+                if [b[0] for b in back] != spelled(specs):
+                    return 'it reads back as the tokens %s' % (' '.join(show_(b[0]) for b in back) or '(nothing)')
+                return None
+            run_case('backslash-token-is-not-a-line-splice:%s' % name, specs, check,
+                     'a lone backslash token (`a \\ <newline> b`: backslash, blank, newline - no splice in the source) is written as %(text)s; %(why)s: the backslash and the line end after it are spliced away when the -E text is read, the token is lost')
+    else:
+        for name in ('last-token-of-a-line', 'inside-a-line'):
+            rep.ob('R19.8', '%s:%s:backslash-token-is-not-a-line-splice:%s' % (MU, fn, name), True, '', where=where, facts={'backslash': 'not a token of this tokenizer'})
+    AC.flush()
+    # (c) ordinary tokens keep their line
+    group = L.sample_spellings()
+    A = Agg(rep)
+    n = 0
+    for s, g in sorted(group.items()):
+        if s in intro or s == bs:
+            continue
+        n += 1
+        specs = [(b';', 1, 0), (s, 1, 0), (b'x', 0, 1), (s, 1, 1), (b'y', 0, 0) if g == 'punct' else (b'+', 0, 0)]
+        key = '%s:%s:token-at_bol-keeps-its-line:%s' % (MU, fn, g)
+        try:
+            outs = L.printed(specs, max_paths=64)
+            if not outs:
+                rep.undecided('R19.8', key, 'print_tokens has no returning path on a concrete list', where=where)
+                continue
+            w = None
+            for text, trail in outs:
+                if text is None:
+                    w = 'undecided'
+                    break
+                back = L.read_back(text)
+                if back and back[0] == 'error':
+                    continue        # (whether two spellings may touch is R19.4's table)
+                want = [(x[0], x[1]) for x in specs]
+                # the tokens that begin a line are the same tokens (counted by position among the tokens that came back)
+                if [ab for _, ab in back] != [ab for _, ab in want] and len(back) == len(want):
+                    w = 'the tokens `%s` (beginning of a line marked |: %s) are written as %r and come back as %s' % (
+                        ' '.join(show_(x[0]) for x in specs), ' '.join(('|' if ab else '') + show_(sp) for sp, ab in want), show_(text), ' '.join(('|' if ab else '') + show_(sp) for sp, ab in back))
+                    break
+        except (AnalysisBroken, Infeasible) as e:
+            rep.undecided('R19.8', key, 'a concrete list cannot be followed through print_tokens / tokenize_file / tokenize: %s' % e, where=where)
+            continue
+        if w == 'undecided':
+            rep.undecided('R19.8', key, 'an output call of print_tokens is not understood', where=where)
+            continue
+        A.ob('R19.8', key, w is None, (w or '') + ': the line structure of the -E text is not that of the token list (a token that is not a directive introducer changes its line)', where, {'example': show_(s)})
+    A.flush()
+    if n < 20:
+        rep.undecided('R19.8', '%s:%s:token-at_bol-keeps-its-line:table' % (MU, fn), 'only %d one-token spellings in the table' % n, where=where)
 
 
 # -------------------------------------------------------------------- read-back ---
@@ -201,7 +324,14 @@ def r_printer(P, rep):
             if i > 0 and ab_may:
                 # some token consistent with this path is at the beginning of a line
                 nseen['bol'] += 1
-                A.ob('R19.1', '%s:%s:newline-before-bol-token' % (MU, fn), '\n' in sep,
+                # a printer that has asked about the SPELLING of this token (a helper that reads spellings, or a comparison of
+                # its characters) may keep it on the previous line, after a blank: a `#` that macro replacement left must not
+                # begin a line. Which spellings it does that for is decided on concrete lists by R19.8 (every spelling of the
+                # tokenizer's table other than the directive introducer keeps its line).
+                kept = '\n' not in sep and ' ' in sep and (
+                    any(c[0] == 'call' and c[1] in helpers and c[1] not in stream and c[1] not in pairh and any(as_obj(it, a) is T for a in c[2]) for c in ctx.events)
+                    or _spelling_constrained(it, u, ctx, (T,)))
+                A.ob('R19.1', '%s:%s:newline-before-bol-token' % (MU, fn), '\n' in sep or kept,
                      'a token that starts a line (at_bol%s) is written without a preceding newline: directives and line structure of the -E output are lost, and the last token of the previous line can fuse with it' % ('' if ab_must else ' not even consulted'),
                      where, facts)
             if hs_may and not ab_must and i > 0:
@@ -799,6 +929,13 @@ def r_subst(P, rep, protect):
                     else:
                         seen['arg-second'] += 1
                         touched = [s for s in stores if s[1] is c or s[1] is src]
+                        # what counts is what the token carries when subst returns: a flag that is saved and written back
+                        # around a struct assignment is not changed; a copy that a later ## overwrites with the pasted
+                        # token is no longer the inner token (its flags are the pasted-token obligations' business)
+                        if touched and any(p_[1] == 'paste' and p_[2] and as_obj(it, p_[2][0]) is c for p_ in sp.calls):
+                            touched = [s for s in touched if s[1] is src]
+                        if touched and not any(s[1] is src for s in touched) and all(_flag_state(it, c, src, f) in ('inherited', 'own') for f in FLAGS):
+                            touched = []
                         A.ob('R19.2', '%s:%s:argument-inner-tokens-keep-flags' % (PU, fn), not touched,
                              'the %s flag of the parameter token is written into a token in the middle of a substituted argument: line breaks/blanks inside a multi-line argument are lost (`a +<newline>++b` -> `a +++b`) or invented' % (touched[0][2] if touched else ''), where, facts)
             elif e[1] == 'copy_token':
